@@ -248,11 +248,12 @@ Section Evals.
   Variable one : R.
   Variable lin : op -> R -> R.
   Variable bil : op -> R -> R -> R.
+  Variable nlin : op -> list R -> R.
 
   Notation rv := (rval R).
-  Notation dnode := (deval_node R r0 radd rmul rsub atom catom one lin bil).
-  Notation dfrom := (deval_from R r0 radd rmul rsub atom catom one lin bil).
-  Notation dstp := (dstep R r0 radd rmul rsub atom catom one lin bil).
+  Notation dnode := (deval_node R r0 radd rmul rsub atom catom one lin bil nlin).
+  Notation dfrom := (deval_from R r0 radd rmul rsub atom catom one lin bil nlin).
+  Notation dstp := (dstep R r0 radd rmul rsub atom catom one lin bil nlin).
 
   (* the graph [out], run on the inputs [ins0], has the node values [env] and leaves [ins] *)
   Definition evals (ins0 : list rv) (out : list node) (env : list rv) (ins : list rv) : Prop :=
